@@ -167,5 +167,6 @@ pub(crate) fn parse_expr(
     tokens: TokenStream,
 ) -> Option<ptr::P<ast::Expr>> {
     let mut parser = build_parser(context, tokens);
-    parser.parse_expr().ok()
+    // A diagnostic that is neither emitted nor cancelled panics when it is dropped.
+    parser.parse_expr().map_err(|e| e.cancel()).ok()
 }
